@@ -59,9 +59,18 @@ pub fn dispatch(id: &str, tier: Tier, seed: u64, replay: Option<&str>) -> i32 {
                 if text.contains("\"cache_unit\"") {
                     return c16unit::replay(path);
                 }
+                if text.contains("conc:C16D") {
+                    return concprops::replay_sub("C16D", path);
+                }
                 return seqprops::run(id, tier, seed, replay);
             }
+            if let Some(path) = replay {
+                let _ = path;
+            }
             let code = seqprops::run(id, tier, seed, None);
+            let (dcode, dev) = concprops::run_campaign("C16D", "C16", tier, seed);
+            fold_into_evidence("C16", "concurrent_readers_cache_on", concprops::sub_summary(&dev), "executions", dcode);
+            let code = code.max(dcode);
             let (ucode, summary) = c16unit::campaign(tier, seed);
             // fold the unit campaign into the evidence written by the differential campaign
             let path = crate::env::verif_root().join("evidence/C16.json");
@@ -88,6 +97,7 @@ pub fn dispatch(id: &str, tier: Tier, seed: u64, replay: Option<&str>) -> i32 {
         "C19" => c19::run(tier, seed, replay),
         "C07" => concprops::run("C07", tier, seed, replay),
         "C08" => concprops::run("C08", tier, seed, replay),
+        "C18" => concprops::run("C18", tier, seed, replay),
         "C15" => c15::run(tier, seed, replay),
         "C02" => crashprops::run("C02", tier, seed, replay),
         "C03" => crashprops::run("C03", tier, seed, replay),
